@@ -119,6 +119,11 @@ Definition h_pad_trim_left_right (h : heap) (c : hcomp) (l r : Z) : result (heap
 
 (* CompositeCanvas.pad_trim_top_bottom *)
 Definition blank_cvs (cols rows : Z) : list cview := [CV 0 0 cols rows None blank_canvas].
+(* "if (top > 0 or bottom > 0) and self.rows() == 0: self.shards = []": a new, empty list object *)
+Definition h_drop_empty (h : heap) (c : hcomp) (top bottom : Z) : heap * hcomp :=
+  if ((0 <? top) || (0 <? bottom)) && (shards_rows (deref h (hid c)) =? 0)
+  then let '(h', id) := alloc_outer h [] in (h', HC id (hcoords c) (hfin c))
+  else (h, c).
 Definition h_pad_trim_top_bottom (h : heap) (c : hcomp) (top bottom : Z) : result (heap * hcomp) :=
   if hfin c then Err CanvasError
   else
@@ -130,8 +135,9 @@ Definition h_pad_trim_top_bottom (h : heap) (c : hcomp) (top bottom : Z) : resul
              h_trim h c trim_top (Some rows)
            else Ok (h, c)) with
     | Err e => Err e
-    | Ok (h1, c1) =>
-        let cols := shards_cols (deref h1 (hid c1)) in
+    | Ok (h0, c0) =>
+        let cols := shards_cols (deref h0 (hid c0)) in
+        let '(h1, c1) := h_drop_empty h0 c0 top bottom in
         (* "if top > 0: self.shards = [(top, [...]), *self.shards]" *)
         let '(h2, c2) :=
           if 0 <? top then
